@@ -1,6 +1,7 @@
 """C01 - the feature table stays aligned with the observations under any operation history.
 Oracle: dict model name -> list, coordinates/timestamps snapshot; expression and operator results from
-vt.exprs.evaluate.  A case is a JSON list of operations interpreted against the model inside the body."""
+vt.exprs.evaluate.  A case is a JSON list of operations interpreted against the model inside the body (plus a pool of
+expression templates with external variables that the operations evaluate repeatedly; the history may use two tracks)."""
 import itertools
 
 from hypothesis import strategies as st
@@ -10,12 +11,23 @@ from tracklib.util.exceptions import AnalyticalFeatureError
 
 from vt import exprs, gen
 from vt.core import SubCheck, Violation, close, same
-from vt.props.c02 import BINARY_VOID, NON_VOID, SCALAR_VOID, UNARY_VOID
+from vt.props.c02 import BINARY_VOID, NON_VOID, SCALAR_VOID, SHIFT_SCALAR, SHIFT_UNARY, UNARY_VOID, self_contained, shift_ref
 
 ASSUMPTIONS = [
     "feature names from {a, b, c, k1}; values from {-2..3} and occasional NaN; tracks of 1..5 observations with distinct x, y, z, t",
     "create on an existing name is the documented no-op; operations whose arithmetic is undefined (vt.exprs.Undef) are not issued",
     "calls on a missing name are issued only for update / remove / item access, where AnalyticalFeatureError is the documented outcome",
+    "expressions with external scalar variables (documented form operate('A=A/factor', {'factor': var})): a case carries a pool of <= 2 "
+    "expression templates with externals k, w, factor; a history evaluates the same template repeatedly with different values (Python ints "
+    "and floats); the values written are those of the dictionary passed to THAT call",
+    "a history may run on two tracks of the same size (operation ['track', j] switches; the second one is fresh when first used); after "
+    "every step the invariant is checked on both, so state shared between tracks or kept from an earlier call shows",
+    "shift operator objects (SHIFT, SHIFT_REV, SHIFT_CIRCULAR, SHIFT_CIRCULAR_REV with integer k in -6..6, SHIFT_RIGHT/LEFT and circular "
+    "forms) write the documented values y(t)=x(t-k) (NaN outside; circular: index modulo n); the output of a void operator is a drawn name "
+    "(possibly the input itself) or omitted, which the docstring of Track.operate defines as the first input - issued only when that "
+    "input is a real feature",
+    "cases of one process share tracklib's class-level state on purpose; a violation is re-run after that state is put back to its "
+    "import-time content: still failing = self-contained witness (plain key), else key + ':after-earlier-cases' (vt.props.c02.self_contained)",
 ]
 
 FEATS = ["a", "b", "c", "k1"]
@@ -106,7 +118,7 @@ def _src(m, name):
 def _remap(m, tree):
     if tree[0] == "n":
         return ["n", _src(m, tree[1])]
-    if tree[0] == "l":
+    if tree[0] in "le":
         return tree
     if tree[0] == "u":
         return ["u", _remap(m, tree[1])]
@@ -123,11 +135,26 @@ def _must_raise(fn, step):
     raise Violation("missing-name-not-rejected", "%s on a missing feature did not raise AnalyticalFeatureError" % (step,))
 
 
-def apply(m, tr, op, flags):
+def _out(m, src, dst, flags):
+    """(arguments that name the output, effective output name): an omitted output (None) means the first input, and
+    is issued only when that input is a real feature (a virtual one cannot be created); otherwise a name is given"""
+    if dst is None and src not in m.feat:
+        dst = "k1"
+    if dst is None:
+        flags.add("dst-omitted")
+        return [], src
+    if dst == src:
+        flags.add("dst-is-input")
+    return [dst], dst
+
+
+def apply(m, tr, op, flags, ctx=None):
     """apply one operation to track and model; returns None when the operation was not issued, else whether
-    the values written are exact"""
+    the values written are exact.  ctx: {"pool": expression templates of the case, "seen": text -> externals of the
+    earlier evaluations, "track": index of the current track}"""
     kind = op[0]
     exact = True
+    ctx = ctx if ctx is not None else {"pool": [], "seen": {}, "track": 0}
     if kind == "create":
         name, val = op[1], op[2]
         tr.createAnalyticalFeature(name, list(val) if isinstance(val, list) else val)
@@ -207,18 +234,34 @@ def apply(m, tr, op, flags):
             ref = exprs.evaluate(tree, m.env(), m.n)
         except exprs.Undef:
             return None
-        if kind == "op_uv":
-            tr.operate(getattr(Operator, UNARY_VOID[op[1]]), tree[2][1], dst)
-        elif kind == "op_nv":
+        if kind == "op_nv":
             tr.operate(getattr(Operator, NON_VOID[op[1]]), tree[2][1])
-        elif kind == "op_bv":
-            tr.operate(getattr(Operator, BINARY_VOID[op[1]]), tree[2][1], tree[3][1], dst)
         else:
-            tr.operate(getattr(Operator, SCALAR_VOID[op[1]]), tree[2][1], op[3], dst)
-        if dst is not None:
+            out, dst = _out(m, tree[2][1], dst, flags)
+            if kind == "op_uv":
+                tr.operate(getattr(Operator, UNARY_VOID[op[1]]), tree[2][1], *out)
+            elif kind == "op_bv":
+                tr.operate(getattr(Operator, BINARY_VOID[op[1]]), tree[2][1], tree[3][1], *out)
+            else:
+                tr.operate(getattr(Operator, SCALAR_VOID[op[1]]), tree[2][1], op[3], *out)
             m.feat[dst] = list(ref.vec)
             exact = ref.exact
         flags.add("operator")
+    elif kind in ("op_su", "op_sh"):        # shift operator objects: ["op_su", NAME, src, dst] / ["op_sh", NAME, src, k, dst]
+        src = _src(m, op[2])
+        val = exprs.evaluate(["n", src], m.env(), m.n)
+        out, dst = _out(m, src, op[-1], flags)
+        if kind == "op_su":
+            tr.operate(getattr(Operator, op[1]), src, *out)
+            m.feat[dst] = shift_ref(op[1], val.vec)
+        else:
+            tr.operate(getattr(Operator, op[1]), src, int(op[3]), *out)
+            m.feat[dst] = shift_ref(op[1], val.vec, int(op[3]))
+        exact = val.exact
+        flags.add("operator")
+        flags.add("shift")
+        if dst == src:
+            flags.add("shift-in-place")
     elif kind == "expr":
         lhs, tree = op[1], _remap(m, op[2])
         try:
@@ -240,27 +283,76 @@ def apply(m, tr, op, flags):
         flags.add("expr")
         if "delete" in flags:
             flags.add("expr-after-delete")
+    elif kind == "exprx":        # ["exprx", index into the pool of templates, {external: value}]
+        if not ctx["pool"]:
+            return None
+        lhs, tree, spaced = ctx["pool"][op[1] % len(ctx["pool"])]
+        tree = _remap(m, tree)
+        ext = dict(op[2])
+        env = m.env()
+        env.update(ext)
+        try:
+            ref = exprs.evaluate(tree, env, m.n)
+        except exprs.Undef:
+            return None
+        s = exprs.render(tree)
+        if spaced:
+            s = s.replace("+", " + ").replace("<", " < ")
+        s = s if lhs is None else lhs + "=" + s
+        tr.operate(s, dict(ext))
+        if lhs is not None:
+            if lhs in ("x", "y", "z"):
+                setattr(m, lhs, list(ref.vec))
+            else:
+                m.feat[lhs] = list(ref.vec)
+            exact = ref.exact
+        flags.add("ext-expr")
+        used = sorted((k, float(ext[k])) for k in exprs.externals_of(tree))
+        for vals, j in ctx["seen"].get(s, []):
+            if vals != used:
+                flags.add("ext-repeat-other-value")
+                flags.add("ext-repeat-other-value-" + ("same-track" if j == ctx["track"] else "other-track"))
+        ctx["seen"].setdefault(s, []).append((used, ctx["track"]))
+        if "delete" in flags:
+            flags.add("expr-after-delete")
     else:
         raise ValueError(op)
     return exact
 
 
+@self_contained
 def body_history(case):
-    m, tr = build(case["n"])
+    n = case["n"]
+    tracks = {0: build(n)}
+    cur = 0
+    ctx = {"pool": case.get("pool") or [], "seen": {}, "track": 0}
     flags = set()
-    deleted = set()
+    deleted = {0: set(), 1: set()}
     recreated = False
     issued = 0
     for k, op in enumerate(case["ops"]):
+        if op[0] == "track":           # switch to the other track (fresh when first used)
+            cur = int(op[1]) % 2
+            if cur not in tracks:
+                tracks[cur] = build(n)
+            ctx["track"] = cur
+            if len(tracks) > 1:
+                flags.add("two-tracks")
+            continue
+        m, tr = tracks[cur]
         before = set(m.feat)
-        exact = apply(m, tr, op, flags)
+        exact = apply(m, tr, op, flags, ctx)
         if exact is None:
             continue
         issued += 1
-        invariant(m, tr, "step %d %s" % (k, op), exact)
+        step = "step %d %s" % (k, op)
+        invariant(m, tr, step, exact)
+        for j in sorted(tracks):
+            if j != cur:
+                invariant(tracks[j][0], tracks[j][1], step + " [on the other track]", True)
         gone = before - set(m.feat)
-        deleted |= gone
-        if (set(m.feat) - before) & deleted:
+        deleted[cur] |= gone
+        if (set(m.feat) - before) & deleted[cur]:
             recreated = True
     nt = ("delete-not-last" in flags) or recreated or ("expr-after-delete" in flags)
     cls = sorted(flags) + (["recreate"] if recreated else []) + ["len-%d" % min(10 * (issued // 10), 30)]
@@ -276,6 +368,10 @@ def strat_history(max_ops=30):
         v = st.one_of(*[st.sampled_from(exprs.VALUES)] * 9, st.just(float("nan")))
         return st.one_of(st.sampled_from(exprs.VALUES), st.lists(v, min_size=n, max_size=n))
 
+    # output of a void operator: a drawn name (may be the input itself) or omitted (= first input)
+    dsts = st.one_of(names, names, names, st.none())
+    ext = exprs.ext_values(exprs.EXTERNALS)
+
     def ops(n):
         tree = exprs.trees(FEATS + ["x", "y", "z", "idx"], max_depth=3, max_ops=4)
         return st.one_of(
@@ -288,17 +384,38 @@ def strat_history(max_ops=30):
             st.tuples(st.just("del"), names),
             st.tuples(st.just("seti"), st.sampled_from(FEATS + FEATS + ["x", "y", "z"]), st.integers(0, 4), st.sampled_from(exprs.VALUES), st.booleans()),
             st.tuples(st.just("addaf"), names, st.sampled_from(sorted(FUNCS))),
-            st.tuples(st.just("op_uv"), st.sampled_from(sorted(UNARY_VOID)), srcs, names),
-            st.tuples(st.just("op_bv"), st.sampled_from(sorted(BINARY_VOID)), srcs, srcs, names),
-            st.tuples(st.just("op_sv"), st.sampled_from(sorted(SCALAR_VOID)), srcs, st.sampled_from(exprs.LITERALS), names),
+            st.tuples(st.just("op_uv"), st.sampled_from(sorted(UNARY_VOID)), srcs, dsts),
+            st.tuples(st.just("op_bv"), st.sampled_from(sorted(BINARY_VOID)), srcs, srcs, dsts),
+            st.tuples(st.just("op_sv"), st.sampled_from(sorted(SCALAR_VOID)), srcs, st.sampled_from(exprs.LITERALS), dsts),
             st.tuples(st.just("op_nv"), st.sampled_from(sorted(NON_VOID)), srcs),
+            st.tuples(st.just("op_su"), st.sampled_from(sorted(SHIFT_UNARY)), srcs, dsts),
+            st.tuples(st.just("op_sh"), st.sampled_from(sorted(SHIFT_SCALAR)), srcs, st.integers(-6, 6), dsts),
             st.tuples(st.just("expr"), st.sampled_from(FEATS + ["x", "y", "z"]), tree, st.booleans()),
             st.tuples(st.just("expr"), st.sampled_from(FEATS), tree, st.booleans()),
             st.tuples(st.just("expr"), st.none(), tree, st.booleans()),
+            st.tuples(st.just("exprx"), st.integers(0, 1), ext),
+            st.tuples(st.just("exprx"), st.integers(0, 1), ext),
+            st.tuples(st.just("exprx"), st.integers(0, 1), ext),
+            st.tuples(st.just("exprx"), st.integers(0, 1), ext),
+            st.tuples(st.just("exprx"), st.integers(0, 1), ext),
+            st.tuples(st.just("track"), st.integers(0, 1)),
+            st.tuples(st.just("track"), st.integers(0, 1)),
         ).map(list)
 
-    return st.tuples(st.integers(1, 5), st.integers(1, max_ops)).flatmap(
-        lambda nk: st.lists(ops(nk[0]), min_size=nk[1], max_size=nk[1]).map(lambda o: {"n": nk[0], "ops": o}))
+    # templates with externals: [lhs | None, tree, blanks?]; the same template is evaluated again and again in a history
+    def with_external(t):        # every template has at least one external: (tree, op, external, on the left?)
+        tree, op, name, left = t
+        if exprs.externals_of(tree):
+            return tree
+        return ["b", op, ["e", name], tree] if left else ["b", op, tree, ["e", name]]
+
+    xtree = st.tuples(exprs.trees(FEATS + ["x", "y", "z", "idx"], max_depth=3, max_ops=3, externals=exprs.EXTERNALS),
+                      st.sampled_from(exprs.BINOPS), st.sampled_from(exprs.EXTERNALS), st.booleans()).map(with_external)
+    template = st.tuples(st.sampled_from(FEATS + FEATS + ["x", "y", "z", None]), xtree, st.booleans()).map(list)
+    pool = st.lists(template, min_size=1, max_size=2)
+
+    return st.tuples(st.integers(1, 5), st.integers(1, max_ops), pool).flatmap(
+        lambda nk: st.lists(ops(nk[0]), min_size=nk[1], max_size=nk[1]).map(lambda o: {"n": nk[0], "ops": o, "pool": nk[2]}))
 
 
 # --- exhaustive: every sequence of <= 4 of 12 concrete operations on a 2-fix track -----------------
@@ -310,21 +427,27 @@ CONCRETE = [
     ["expr", "a", ["b", "*", ["n", "b"], ["l", 2]], False],
     ["expr", "b", ["l", 5], False],
     ["expr", None, ["b", "+", ["n", "a"], ["n", "b"]], False],
+    ["exprx", 0, {"k": 2}], ["exprx", 0, {"k": 0.5}],          # the same text "b=a*k" with two values of the external
+    ["op_su", "SHIFT_RIGHT", "a", None],                       # shift written over its input (omitted output)
 ]
+CONCRETE_POOL = [["b", ["b", "*", ["n", "a"], ["e", "k"]], False]]
 
 
 def enum_histories(tier):
     depth = 4 if tier == "thorough" else 3
     for d in range(1, depth + 1):
         for seq in itertools.product(range(len(CONCRETE)), repeat=d):
-            yield {"n": 2, "ops": [CONCRETE[i] for i in seq]}
+            yield {"n": 2, "ops": [CONCRETE[i] for i in seq], "pool": CONCRETE_POOL}
 
 
-RULE = ("bfs: every sequence of length <= 3 (quick) / <= 4 (thorough) over 12 concrete create/delete/overwrite/expression operations on a "
+RULE = ("bfs: every sequence of length <= 3 (quick) / <= 4 (thorough) over 15 concrete create/delete/overwrite/expression operations "
+        "(two of them the same external-variable expression with different values, one a shift written over its input) on a "
         "2-fix track; random: Hypothesis lists of <= 30 (quick) / <= 50 (thorough) operations (create, update, remove, bracket set/delete/item, "
-        "addAnalyticalFeature, unary/binary/scalar/non-void operator objects with virtual sources and dst == source, expressions with and "
-        "without '=') on tracks of 1..5 fixes, invariant checked after every step. Non-trivial: the history deletes a feature that is not the "
-        "last created, or deletes and recreates a name, or evaluates an expression after a delete. Distinct = hash of the operation list.")
+        "addAnalyticalFeature, unary/binary/scalar/non-void and shift operator objects with virtual sources and the output a drawn name, the "
+        "source itself or omitted, expressions with and without '=', expressions from a per-case pool of <= 2 templates with external scalar "
+        "variables evaluated with a freshly drawn dictionary each time, switches between two tracks) on tracks of 1..5 fixes, invariant "
+        "checked on every track after every step. Non-trivial: the history deletes a feature that is not the "
+        "last created, or deletes and recreates a name, or evaluates an expression after a delete. Distinct = hash of the case.")
 
 # coverage-guided stage of the thorough tier (vt/fuzz.py): sub-check -> libFuzzer executions
 FUZZ = {'random_histories': 8000}
